@@ -308,6 +308,50 @@ def allfun_reorder_trace(tid, seed, n, order):
     return tr
 
 
+def many_held_trace(tid, seed, nfun=900, nvars=5):
+    """Hundreds of held functions at once (node tables of a few thousand
+    nodes, levels with many hundreds of nodes): every adjacent swap, explicit
+    reorderings, reorder_to_pairs, sifting.  Built unrecorded; the ledger is
+    handed to the recorder with the first snapshot."""
+    import itertools
+    from harness.adapter import _bdd as _B
+    rng = random.Random(seed)
+    names = ALL_NAMES[:nvars]
+    order = rng.sample(names, nvars)
+    b = _B.BDD()
+    for nm in order:
+        b.add_var(nm)
+
+    class _Shim:
+        bdd = b
+    ext = {}
+    full = 1 << (1 << nvars)
+    for _ in range(nfun):
+        u = build_tt(_Shim, names, rng.randrange(1, full - 1))
+        if abs(u) != 1:
+            b.incref(u)
+            ext[abs(u)] = ext.get(abs(u), 0) + 1
+    b.collect_garbage()
+    tr = Trace(tid, names, bdd=b, seed=seed, ext=ext,
+               meta=dict(driver='many_held', nfun=nfun, order=order))
+    for x in range(nvars - 1):
+        tr.swap(x, x + 1)
+    perms = list(itertools.permutations(names))
+    for p in rng.sample(perms, 2):
+        tr.reorder_to(list(p))
+    tr.pairs({names[0]: names[2], names[1]: names[3]})
+    tr.sift()
+    # drop half of the functions, then swap with the garbage still in the table
+    for u in rng.sample(sorted(tr.ext), len(tr.ext) // 2):
+        for _ in range(tr.ext.get(u, 0)):
+            tr.release(u)
+    tr.call('sync', dict(), lambda: 0)
+    for x in range(nvars - 1):
+        tr.swap(x, x + 1)
+    tr.release_all()
+    return tr
+
+
 # ======================= C14: declarations =======================
 def sibling_history(tid, seed, nvars, steps):
     """Two managers constructed from ONE levels dict (`BDD(levels)`), and the
